@@ -172,7 +172,7 @@ def _run_case(idx, c):
         f = flavour(ver, "tls13" if ver == 4 else ("ecdhe_rsa" if ver > 0 else "rsa"))
     elif site == "srp" and cls == "absent":
         f = flavour(ver, "ecdhe_rsa")
-    elif site == "srp":
+    elif site in ("srp", "srpsrv"):
         f = flavour(ver, "srp_sha")
     elif site == "binder":
         f = flavour(4, "tls13", resume="psk", tickets13=1)
@@ -281,6 +281,41 @@ def _run_case(idx, c):
     if site == "srp" and cls == "wrongsecret":
         b["ckw"]["password"] = bytearray(b"not-the-password")
         state["hit"] = 1
+    if site == "srpsrv" and cls == "wrongsecret":
+        # the server holds a verifier for ANOTHER password (what a server that does not know alice has)
+        b["ckw"]["password"] = bytearray(b"what-the-server-never-heard")
+        state["hit"] = 1
+    if site == "srpsrv" and cls == "degenerate":
+        # a server without any verifier: parameters that force the premaster (server-side methods of the helper class
+        # only; the client under test runs the unmodified client side)
+        import tlslite.keyexchange as KX
+        from tlslite.mathtls import goodGroupParameters, makeK
+        from tlslite.messages import ServerKeyExchange
+        from tlslite.utils.cryptomath import numberToByteArray
+        b["ckw"]["password"] = bytearray(b"what-the-server-never-heard")
+        var = c.get("var", 0)
+        gi = [2, 0, 3, 2, 1, 4, 5, 6][var % 8]
+        zeroB = var % 4 == 3
+        orig_mk, orig_pc = KX.SRPKeyExchange.makeServerKeyExchange, KX.SRPKeyExchange.processClientKeyExchange
+
+        def rogue_ske(self, sigHash=None):
+            g0, N = goodGroupParameters[gi]
+            g = g0 if zeroB else 1
+            self.N = N
+            self.B = N if zeroB else (makeK(N, g) + 1) % N
+            ske = ServerKeyExchange(self.cipherSuite, self.serverHello.server_version)
+            ske.createSRP(N, g, bytearray(b"\x00" * 16), self.B)
+            state["hit"] += 1
+            return ske
+
+        def rogue_cke(self, clientKeyExchange):
+            return numberToByteArray(0 if zeroB else 1)
+        KX.SRPKeyExchange.makeServerKeyExchange = rogue_ske
+        KX.SRPKeyExchange.processClientKeyExchange = rogue_cke
+
+        def restore():
+            KX.SRPKeyExchange.makeServerKeyExchange = orig_mk
+            KX.SRPKeyExchange.processClientKeyExchange = orig_pc
     if site == "checker":
         fp = "00" * 20 if cls == "wrongsecret" else None
         if role == "c":
@@ -477,7 +512,7 @@ def _run_case(idx, c):
     elif site == "srp" and cls == "absent":
         completed = bool(so.ok)
         recorded = bool(sess is not None and sess.srpUsername)
-    elif site == "srp":
+    elif site in ("srp", "srpsrv"):
         recorded = bool(completed and sess is not None and sess.srpUsername)
     elif site == "binder" and cls == "stale":
         # a full handshake is a legitimate outcome; the identity named by the ticket must not be attributed
